@@ -1,0 +1,26 @@
+//go:build verif
+
+package crl
+
+import (
+	"time"
+
+	"github.com/gr33nbl00d/caddy-revocation-validator/crl/crlrepository"
+)
+
+// Accessors used only by the verification harness (build tag verif).
+
+func (c *CRLRevocationChecker) VerifRepository() *crlrepository.Repository { return c.crlRepository }
+
+// VerifForceUpdate runs one refresh round the way the ticker would (forced or not).
+func (c *CRLRevocationChecker) VerifUpdateCRLs(force bool) { c.updateCRLs(force) }
+
+// VerifResetGlobals clears the process-global bookkeeping between harness cases.
+func VerifResetGlobals() {
+	workDirInUseMutex.Lock()
+	workDirsInUse = make(map[string]int)
+	workDirInUseMutex.Unlock()
+	crlUpdateMutex.Lock()
+	lastCrlUpdateFinishTime = time.Time{}
+	crlUpdateMutex.Unlock()
+}
